@@ -123,7 +123,7 @@ func (exec *Executor) execAnyNode(
 	switch value := value.(type) {
 	case map[string]any:
 		return exec.executeAnyItem(
-			ctx, next, slices.Collect(maps.Values(value)), found, 1,
+			ctx, next, sortedValues(value), found, 1,
 			node.First(), node.Last(), true, exec.autoUnwrap(),
 		)
 	case []any:
@@ -136,12 +136,23 @@ func (exec *Executor) execAnyNode(
 	return statusNotFound, nil
 }
 
+// sortedValues returns the values of obj in the order of its sorted keys, so
+// that evaluation does not depend on Go's randomized map iteration order.
+func sortedValues(obj map[string]any) []any {
+	keys := slices.Sorted(maps.Keys(obj))
+	vals := make([]any, len(keys))
+	for i, k := range keys {
+		vals[i] = obj[k]
+	}
+	return vals
+}
+
 // collection converts v into a slice of values if it's either a map or a
 // slice. Otherwise it returns nil.
 func collection(v any) []any {
 	switch v := v.(type) {
 	case map[string]any:
-		return slices.Collect(maps.Values(v)) // Just work with the values
+		return sortedValues(v) // Just work with the values
 	case []any:
 		return v
 	}
